@@ -117,6 +117,9 @@ type c15Input struct {
 	ContLine    int        `json:"contents_line"`
 	ContCol     int        `json:"contents_col"`
 	CheckPos    bool       `json:"check_positions"`
+	// Alias: the contents list (or one of its items) is written as a YAML alias of an anchored node. The property does
+	// not say whether such a manifest is accepted; if it is, every denoted entry must be returned and be safe.
+	Alias bool `json:"alias,omitempty"`
 }
 
 var c15ReErr = regexp.MustCompile(`^validation error at line=(\d+), column=(\d+): (.*)$`)
@@ -213,6 +216,9 @@ func c15Check(in c15Input) (string, []int) {
 	}
 	if mf != nil {
 		return "a result was returned together with an error", nil
+	}
+	if in.Alias {
+		return "", nil // rejecting an aliased list is within the property
 	}
 	errs, ok := c15Errors(err)
 	if !ok {
@@ -506,8 +512,31 @@ func c15GenManifest(t *rapid.T) c15Input {
 			w.emit("contents: " + rapid.SampledFrom([]string{"a.fga", "{a: b}", "3"}).Draw(t, "badContents"))
 			return // not a sequence
 		}
+		if kind == 2 && !flowJSON && n > 0 {
+			// the list stands under another key with an anchor; "contents" is an alias of it
+			w.emit("x-files: &files [")
+			for i, e := range entries {
+				if i > 0 {
+					w.emit(", ")
+				}
+				if e.NonString != "" {
+					w.emit(e.NonString)
+				} else {
+					w.emit(c15DQuote(e.Raw))
+				}
+			}
+			w.emit("]" + w.eol + "contents: *files")
+			in.HasContents, in.Entries, in.Alias, in.CheckPos = true, entries, true, false
+			return
+		}
 		in.HasContents = true
 		flow := flowJSON || rapid.IntRange(0, 3).Draw(t, "flow") == 0
+		if kind == 3 && !flowJSON && n >= 2 && entries[0].NonString == "" {
+			// one item is an alias of an anchored earlier item
+			flow = true
+			entries[n-1] = c15Entry{Raw: entries[0].Raw}
+			in.Alias, in.CheckPos = true, false
+		}
 		if flow {
 			if flowJSON {
 				w.emit(`"contents": `)
@@ -537,7 +566,12 @@ func c15GenManifest(t *rapid.T) c15Input {
 				} else {
 					// inside a flow sequence plain scalars must not contain flow indicators; quote always
 					l, c := w.line, w.col
-					if rapid.Bool().Draw(t, "fq") || flowJSON {
+					if in.Alias && i == 0 {
+						w.emit("&e0 ")
+					}
+					if in.Alias && i == n-1 {
+						w.emit("*e0")
+					} else if rapid.Bool().Draw(t, "fq") || flowJSON {
 						w.emit(c15DQuote(e.Raw))
 					} else {
 						w.emit(c15QuoteSingle(e.Raw))
